@@ -7,6 +7,7 @@ package harness
 import (
 	"bytes"
 	"math"
+	"sort"
 	"strconv"
 
 	"pgregory.net/rapid"
@@ -26,6 +27,7 @@ type GenOpts struct {
 	BigProb  int    // 1-in-N chance that a list/text takes a big length (0 = never)
 	NoAbsent bool   // Arbitrary mode without absent parts (for checks that need must-succeed encodes)
 	ForceKey string // if non-empty: the top-level type's dynamic part uses this registered key
+	HugeProb int    // 1-in-N chance that a 32-bit-prefixed text/list takes a length around 2^16..2^20 / 10^5 / 10^6 (0 = never)
 }
 
 // Features of a generated value, used for non-triviality rules and class histograms.
@@ -80,6 +82,11 @@ type gen struct {
 	o    GenOpts
 	feat *Features
 	mult int // product of the lengths of the enclosing object lists (bounds the total size of a value)
+	// values already used in this message: now and then a field repeats one (coincidences such as
+	// "two fields equal" are otherwise practically never generated)
+	seenNums  []uint64
+	seenTexts [][]byte
+	hugeCap   int // upper bound for "huge" lengths of the list being generated (object lists are costly per element)
 }
 
 var (
@@ -197,6 +204,12 @@ func expandBytes(n int, salt uint64) []byte {
 	return out
 }
 
+var interestingLens = []int{15, 16, 17, 31, 32, 33, 63, 64, 65, 99, 100, 101, 127, 128, 129, 254, 255, 256, 257, 511, 512, 513, 999, 1000, 1001, 1023, 1024, 1025,
+	2047, 2048, 2049, 4095, 4096, 4097, 8191, 8192, 8193, 9999, 10000, 10001, 16383, 16384, 16385, 32767, 32768, 32769, 65534, 65535}
+
+var hugeLens = []int{65536, 65537, 99999, 100000, 100001, 131071, 131072, 131073, 262143, 262144, 262145, 524287, 524288, 524289,
+	999995, 999996, 999997, 999998, 999999, 1000000, 1000001, 1048575, 1048576, 1048577}
+
 // length of a list or prefixed text: mostly tiny, sometimes around 255/256, rarely big.
 func (g *gen) length(label string, prefixMax uint64) int {
 	capBig := g.o.MaxList
@@ -210,6 +223,14 @@ func (g *gen) length(label string, prefixMax uint64) int {
 			return rapid.IntRange(0, min(c, 5)).Draw(g.rt, label+".len")
 		}
 		capBig = min(capBig, c)
+	}
+	if g.o.HugeProb > 0 && g.mult <= 1 && prefixMax >= 1<<20 && rapid.IntRange(0, g.o.HugeProb-1).Draw(g.rt, label+".huge") == g.o.HugeProb-1 {
+		// 32-bit prefixes only: lengths around 2^16..2^20 and 10^5, 10^6
+		l := rapid.SampledFrom(hugeLens).Draw(g.rt, label+".hlen")
+		if g.hugeCap > 0 && l > g.hugeCap {
+			l = g.hugeCap
+		}
+		return l
 	}
 	if g.o.BigProb > 0 && capBig > 300 && rapid.IntRange(0, g.o.BigProb-1).Draw(g.rt, label+".big") == g.o.BigProb-1 { // max draw, so shrinking moves away from big
 		switch rapid.IntRange(0, 3).Draw(g.rt, label+".bigc") {
@@ -231,7 +252,12 @@ func (g *gen) length(label string, prefixMax uint64) int {
 	case 7:
 		return rapid.IntRange(0, 40).Draw(g.rt, label+".len")
 	case 8:
-		return min(int(prefixMax), rapid.SampledFrom([]int{254, 255, 256, 257}).Draw(g.rt, label+".len"))
+		// lengths around powers of two and round decimal numbers (thresholds of batching, caches, limits)
+		l := rapid.SampledFrom(interestingLens).Draw(g.rt, label+".ilen")
+		if l > capBig || g.mult > 1 && l > 300 {
+			l = rapid.SampledFrom([]int{254, 255, 256, 257}).Draw(g.rt, label+".len")
+		}
+		return min(int(prefixMax), l)
 	default:
 		return rapid.IntRange(0, 12).Draw(g.rt, label+".len")
 	}
@@ -356,7 +382,15 @@ func (g *gen) value(typeName string, label string, depth int) *Value {
 		}
 		switch f.Kind {
 		case "num":
-			x.N = g.num(l, f.NType)
+			if len(g.seenNums) > 0 && rapid.IntRange(0, 11).Draw(g.rt, l+".rep") == 11 {
+				x.N = g.seenNums[rapid.IntRange(0, len(g.seenNums)-1).Draw(g.rt, l+".repi")] & NMask(f.NType)
+				g.noteNum(f.NType, x.N)
+			} else {
+				x.N = g.num(l, f.NType)
+			}
+			if len(g.seenNums) < 64 {
+				g.seenNums = append(g.seenNums, x.N)
+			}
 		case "len", "checksum":
 			// stale caller-supplied value
 			if rapid.Bool().Draw(g.rt, l+".zero") {
@@ -365,9 +399,36 @@ func (g *gen) value(typeName string, label string, depth int) *Value {
 				x.N = rapid.Uint64().Draw(g.rt, l) & NMask(f.NType)
 			}
 		case "fixtext":
-			x.T = g.fixtext(l, f)
+			if len(g.seenTexts) > 0 && rapid.IntRange(0, 11).Draw(g.rt, l+".rep") == 11 {
+				t := append([]byte{}, g.seenTexts[rapid.IntRange(0, len(g.seenTexts)-1).Draw(g.rt, l+".repi")]...)
+				switch g.o.Mode {
+				case Canonical:
+					if len(t) > f.Width {
+						t = t[:f.Width]
+					}
+					t = stripPadSide(t, byte(f.Pad), f.Left)
+				case Wire:
+					t = refFixedWrite(t, f.Width, byte(f.Pad), f.Left)
+				}
+				g.noteFixed(t, f)
+				g.feat.TextOrList++
+				x.T = t
+			} else {
+				x.T = g.fixtext(l, f)
+			}
+			if len(g.seenTexts) < 64 && len(x.T) > 0 {
+				g.seenTexts = append(g.seenTexts, x.T)
+			}
 		case "text":
-			x.T = g.text(l, f.Prefix)
+			if len(g.seenTexts) > 0 && rapid.IntRange(0, 11).Draw(g.rt, l+".rep") == 11 {
+				x.T = append(HexBytes{}, g.seenTexts[rapid.IntRange(0, len(g.seenTexts)-1).Draw(g.rt, l+".repi")]...)
+				g.feat.TextOrList++
+			} else {
+				x.T = g.text(l, f.Prefix)
+			}
+			if len(g.seenTexts) < 64 && len(x.T) > 0 && len(x.T) < 64 {
+				g.seenTexts = append(g.seenTexts, x.T)
+			}
 		case "numlist":
 			if g.nilList(l) {
 				x.Nil = true
@@ -424,7 +485,9 @@ func (g *gen) value(typeName string, label string, depth int) *Value {
 				x.Nil = true
 				break
 			}
+			g.hugeCap = 131073
 			n := g.length(l, NMask(f.Count))
+			g.hugeCap = 0
 			g.noteList(n, NMask(f.Count))
 			x.OL = make([]*Value, n)
 			elem := ts.Module + "." + f.Elem
@@ -458,7 +521,10 @@ func (g *gen) value(typeName string, label string, depth int) *Value {
 			df := &ts.Fields[discIdx]
 			choice := 0 // present and matching
 			if g.o.Mode == Arbitrary && !g.o.NoAbsent && !(depth == 0 && g.o.ForceKey != "") {
-				choice = rapid.SampledFrom([]int{0, 0, 0, 0, 0, 0, 1, 1, 2, 3}).Draw(g.rt, l+".shape")
+				choice = rapid.SampledFrom([]int{0, 0, 0, 0, 0, 0, 1, 1, 2, 3, 4}).Draw(g.rt, l+".shape")
+				if choice == 4 && tb.KeyType != "text" {
+					choice = 2
+				}
 			}
 			pick := func(lbl string) string {
 				return tb.Order[rapid.IntRange(0, len(tb.Order)-1).Draw(g.rt, l+lbl)]
@@ -479,6 +545,27 @@ func (g *gen) value(typeName string, label string, depth int) *Value {
 				g.feat.Absent++
 			case 2: // absent, unregistered key
 				setKey(v, ts, discIdx, g.unregisteredKey(l, tb, df))
+				g.feat.Absent++
+				g.feat.Unregistered++
+			case 4: // absent, a registered text key with decoration (blank/tab/NUL before or after, extra byte): not a registered value
+				k := pick(".key")
+				switch rapid.IntRange(0, 6).Draw(g.rt, l+".deco") {
+				case 0:
+					k = " " + k
+				case 1:
+					k = k + " "
+				case 2:
+					k = "\t" + k
+				case 3:
+					k = k + "\x00"
+				case 4:
+					k = " " + k + " "
+				case 5:
+					k = k + "0"
+				default:
+					k = "\n" + k
+				}
+				setKey(v, ts, discIdx, k)
 				g.feat.Absent++
 				g.feat.Unregistered++
 			case 3: // present, but of the type pinned for another key
@@ -511,18 +598,72 @@ func GenValue(rt *rapid.T, typeName string, o GenOpts) (*Value, *Features) {
 // DefaultOpts: list-size policy per tier.
 func DefaultOpts(m Mode) GenOpts {
 	if Thorough() {
-		return GenOpts{Mode: m, MaxList: 70000, BigProb: 12}
+		return GenOpts{Mode: m, MaxList: 70000, BigProb: 12, HugeProb: 60}
 	}
-	return GenOpts{Mode: m, MaxList: 70000, BigProb: 40}
+	return GenOpts{Mode: m, MaxList: 70000, BigProb: 40, HugeProb: 600}
 }
 
-// MyTypes returns the types this shard is responsible for (i ≡ shard mod nshards).
+// MyTypes returns the types this shard is responsible for. Types are dealt to the
+// shards by estimated generation cost (list-bearing and frame types are far more
+// expensive than flat ones), greedily and deterministically, so that shards finish together.
 func MyTypes() []string {
-	var out []string
-	for i, n := range TypeNames {
-		if MyShare(i) {
-			out = append(out, n)
+	n := EnvNShards()
+	type tw struct {
+		name string
+		w    int
+	}
+	var all []tw
+	for _, name := range TypeNames {
+		all = append(all, tw{name, typeWeight(name, 0)})
+	}
+	sort.SliceStable(all, func(i, j int) bool {
+		if all[i].w != all[j].w {
+			return all[i].w > all[j].w
+		}
+		return all[i].name < all[j].name
+	})
+	load := make([]int, n)
+	var mine []string
+	for _, t := range all {
+		best := 0
+		for i := 1; i < n; i++ {
+			if load[i] < load[best] {
+				best = i
+			}
+		}
+		load[best] += t.w
+		if best == EnvShard() {
+			mine = append(mine, t.name)
 		}
 	}
-	return out
+	sort.Strings(mine)
+	return mine
+}
+
+func typeWeight(name string, depth int) int {
+	ts := Types[name]
+	w := 2 + len(ts.Fields)
+	if depth > 3 {
+		return w
+	}
+	for _, f := range ts.Fields {
+		switch f.Kind {
+		case "text":
+			w += 40
+		case "numlist", "fixtextlist", "textlist":
+			w += 120
+		case "objlist":
+			w += 200 + typeWeight(ts.Module+"."+f.Elem, depth+1)
+		case "obj", "objval":
+			w += typeWeight(ts.Module+"."+f.Elem, depth+1)
+		case "dyn":
+			tb := TableOf(ts, &f)
+			sum := 0
+			for _, k := range tb.Order {
+				sum += typeWeight(tb.TypeFor(k), depth+1)
+			}
+			w += 20 + sum/len(tb.Order)
+		}
+	}
+	return w
 }
